@@ -1,7 +1,6 @@
 package binder
 
 import (
-	"github.com/gofiber/utils/v2"
 	"github.com/valyala/fasthttp"
 )
 
@@ -25,8 +24,9 @@ func (b *RespHeaderBinding) Bind(resp *fasthttp.Response, out any) error {
 			return
 		}
 
-		k := utils.UnsafeString(key)
-		v := utils.UnsafeString(val)
+		// bound keys and values outlive the request: never alias its buffers
+		k := string(key)
+		v := string(val)
 		err = formatBindData(out, data, k, v, b.EnableSplitting, false)
 	})
 
